@@ -157,7 +157,7 @@ def _compact(case):
 # ----------------------------------------------------------------------------- minimisation (ddmin over the case)
 
 
-def minimise_case(entry: dict, props, extra_monitors=(), budget_runs: int = 150) -> dict:
+def minimise_case(entry: dict, props, extra_monitors=(), budget_runs: int = 150, shrink_prog: bool = True) -> dict:
     """Greedy structural shrinking: drop statements / branches / crashes / faults / schedule directives while the
     same (kind, site) is still reported."""
     sig = (entry["kind"], entry["site"])
@@ -176,7 +176,7 @@ def minimise_case(entry: dict, props, extra_monitors=(), budget_runs: int = 150)
     changed = True
     while changed and runs[0] < budget_runs:
         changed = False
-        for cand in _shrink_candidates(case):
+        for cand in _shrink_candidates(case, shrink_prog):
             if runs[0] >= budget_runs:
                 break
             if still(cand):
@@ -187,7 +187,7 @@ def minimise_case(entry: dict, props, extra_monitors=(), budget_runs: int = 150)
     return {**entry, "case": case, "detail": vs[0]["detail"] if vs else entry["detail"]}
 
 
-def _shrink_candidates(case):
+def _shrink_candidates(case, shrink_prog=True):
     c = case
     # simpler schedules / backend first
     if c.get("line"):
@@ -204,7 +204,9 @@ def _shrink_candidates(case):
         lst = plan.get(key) or []
         for i in range(len(lst)):
             yield {**c, "plan": {**plan, key: lst[:i] + lst[i + 1:]}}
-    # drop statements anywhere
+    # drop statements anywhere (not for cases whose oracle carries per-branch ground truth next to the program)
+    if not shrink_prog:
+        return
     for prog in _drop_stmt(c["prog"]):
         yield {**c, "prog": prog}
 
